@@ -10,9 +10,11 @@ calls (`servers.Repository.Add/Update/Remove` through `updateExclusive` → `red
 events (`Ev.expire`, both "expiry invalidates WATCH" and "does not": `Sys.dirties`) and clock
 ticks.  `Inv` is the inductive invariant, `Init` the well-formed initial systems.
 
-Every theorem below is for an arbitrary number of clients, arbitrary addresses, arbitrary
-resolvers that return a record for the address they were given (`AddrPreserving`), and event
-lists of any length.
+Every theorem below is for an arbitrary number of clients, arbitrary addresses, event lists of
+any length, and arbitrary resolvers that — applied to a record stored under the caller's address
+— return a record for that address (`KeyPreserving`, implied by `AddrPreserving`:
+`AddrPreserving.keyPreserving`).  `Inv`, `Init`, `LogInv`, `AddrPreserving` are defined in the
+lemma file.
 -/
 namespace Swat4.C09
 open Swat4 Std
@@ -57,8 +59,9 @@ theorem C09_commit_atomic {s : Sys} (h : Inv s) {i : Nat} {w : Writer}
 
 /-- **Rows change only by a commit.** Every event either is the accepted `EXEC` of a writer whose
 WATCH is still valid — then the new system is `commitBy`: that writer's batch applied, the writer on
-its way out with the decided result, the ghost log grown by exactly this commit — or leaves `servers:items`, `servers:updated`, `servers:refreshed` and the
-status sets untouched and the log unchanged.  (No write happens outside the fenced transaction.) -/
+its way out with the decided result, the ghost log grown by exactly this commit — or leaves
+`servers:items`, `servers:updated`, `servers:refreshed` and the status sets untouched and the log
+unchanged.  (No write happens outside the fenced transaction.) -/
 theorem C09_rows_change_only_by_commit (s : Sys) (e : Ev) :
     (∃ (i : Nat) (w : Writer) (b : Batch) (r : WResult), IsCommit s e i w b r ∧ s.step e = s.commitBy i w b r) ∨
     ((s.step e).store.RowsEq s.store ∧ (s.step e).log = s.log) :=
